@@ -320,7 +320,7 @@ def machine_case(cid, root, cost, depth, stack, hc=0, meta=None, idx=None, via="
 class C04(Prop):
     id = "C04"
     title = "Every evaluation is bounded by the configured limits"
-    lean_modules = ["NV.C04.Props", "NV.C04.Witness"]
+    lean_modules = ["NV.C04.Props", "NV.C04.Witness", "NV.C04.SpecTests"]
     theorems = ["NV.C04.limit_error_not_swallowed", "NV.C04.limit_error_reaches_next_frame",
                 "NV.C04.catch_reraises_limit_error", "NV.C04.eval_bounded", "NV.C04.eval_bounded_exact",
                 "NV.C04.eval_bounded_of_pos", "NV.C04.depth_bounded", "NV.C04.stack_checked_pushes_bounded",
@@ -352,10 +352,10 @@ class C04(Prop):
     rule = ("cases = corpus + known-finding inputs + boundary list + seeded random cases, alternating (a) a random shape tree "
             "(work loops of 4 forms, spin loops of 4 forms, unbounded recursion direct/mutual/function-pointer/efun-callback with "
             "0..20 locals, recursion through catch, calls, catch frames, map/filter callbacks, safe applies via sprintf(%O), "
-            "error, throw) under MaxEvaluationCost 2000..8000, MaxCallDepth 16..60, StackSize 150..1000, master handler with/without "
+            "error, throw, sort_array callbacks to a missing function) under MaxEvaluationCost 2000..8000 (1 in 12 a value the driver clamps, set through init_config or set_eval_limit), MaxCallDepth 16..60, StackSize 150..1000, master handler with/without "
             "catch, and (b) 3..8 constructor calls with arguments around the limit, 0, negative, 2^31, 2^32+k, 2^62, INT64 "
             "extremes under MaxArraySize/MaxBufferSize/MaxMappingSize/MaxStringLength 10..1000 (1 in 8 with limits around 65536); "
-            "a case is non-trivial when its trace has >= 2 lines; distinct = distinct canonical implementation trace")
+            "and (c) 1 in 8 a sequence of inserts and in-place `m += m2` on one mapping around MaxMappingSize, each inside catch; the quantifier of the property is covered as: loops of 4 forms, direct / mutual / function-pointer / callback / catch recursion, doubling concatenation (join_self), every limit named; the histogram in the evidence lists every branch of the model's machine and every constructor with its ok/err counts (all branches are taken in the quick tier); a case is non-trivial when its trace has >= 2 lines; distinct = distinct canonical implementation trace")
     not_covered = ["mapping * mapping (compose_mapping: keeps a subset of the left operand's keys) and the efuns marked NOT ANALYSED on the exclusion list of props/c04.py (save_variable, restore_variable, regexp, reg_assoc)",
                    "work done inside one efun call that makes no callback (e.g. hashing, copying) is bounded by the size limits, not by the evaluation cost",
                    "instructions the master's error handler executes after a limit error (it runs on a refreshed budget; bounded by an allowance in the oracle, not modelled)",
@@ -509,6 +509,14 @@ class C04(Prop):
         B.append(self.mk("b-nocode-over", N("N", 400), cost=200, depth=20, stack=300))
         B.append(self.mk("b-nocode-under", Q(N("N", 10), W(5)), cost=2000))
         B.append(self.mk("b-nocode-catch", C(C(N("N", 95, form=1))), cost=80))
+        # a safe apply made at (and just below) full call depth: save_context refuses silently / the applied function cannot be entered
+        def chain(n, x):
+            for _ in range(n):
+                x = F(0, x)
+            return x
+        for dlt in (1, 2, 3, 4):
+            B.append(self.mk("b-safe-at-depth-minus%d" % dlt, Q(chain(12 - dlt - 2, A(K)), W(5)), depth=12))
+            B.append(self.mk("b-catch-at-depth-minus%d" % dlt, Q(C(chain(12 - dlt - 3, C(W(3)))), W(5)), depth=12))
         # ordinary errors are still catchable
         B.append(self.mk("b-c-err", Q(C(E_), W(20))))
         B.append(self.mk("b-c-throw", Q(C(T), C(C(E_)))))
@@ -730,6 +738,37 @@ class C04(Prop):
     def histogram(self, cases, impl):
         h = {"machine_cases": 0, "sizes_cases": 0, "sz_err": 0, "sz_ok": 0, "ev_ret": 0, "ev_err_cost": 0, "ev_err_stack_or_depth": 0,
              "ev_err_plain": 0, "after_catch": 0, "nested_catch_over_limit": 0}
+        # branches of the model's machine taken by the machine cases, and outcome per constructor
+        try:
+            cov = E.nvdrive(self.id, "cover", E.cases_text([c for c in cases if c.meta.get("kind") == "machine"]))
+            br = {}
+            for v in cov.values():
+                for l in v:
+                    br[l[3:]] = br.get(l[3:], 0) + 1
+            h["machine_branches"] = dict(sorted(br.items()))
+        except Exception as e:  # noqa
+            h["machine_branches"] = "cover mode failed: %s" % e
+        ctor = {}
+        for c in cases:
+            if c.meta.get("kind") != "sizes":
+                continue
+            names = [l.split()[1] for l in c.lines if l.startswith("sz ")]
+            outs = [l for l in impl.get(c.id, []) if l.startswith("sz ")]
+            for nme, o in zip(names, outs):
+                d = ctor.setdefault(nme, {"ok": 0, "err": 0, "zero": 0})
+                d["err" if o == "sz err" else "zero" if o == "sz ok -1" else "ok"] += 1
+        h["constructor_outcomes"] = dict(sorted(ctor.items()))
+        mp = {"absorb_ok": 0, "absorb_err": 0, "insert_ok": 0, "insert_err": 0}
+        for c in cases:
+            if c.meta.get("kind") != "mapseq":
+                continue
+            ops = c.lines[-1].split()[-1].split(",")
+            out = [l for l in impl.get(c.id, []) if l.startswith("r ret")]
+            if out and '"' in out[0]:
+                flags = out[0].split('"')[1].split(":")[0]
+                for o, f in zip(ops, flags):
+                    mp[("absorb" if o[0] == "a" else "insert") + ("_err" if f == "e" else "_ok")] += 1
+        h["mapseq_ops"] = mp
         for c in cases:
             k = c.meta.get("kind")
             if k == "machine":
